@@ -115,6 +115,53 @@ vp_parse_lemma(bool is_req)
 void h_req_parse_lemma(void) { vp_parse_lemma(true); VP_CANARY(); }
 void h_res_parse_lemma(void) { vp_parse_lemma(false); VP_CANARY(); }
 
+
+/* ---- C16 "decode the same response/request however it is split across reads": the start line arrives in one
+ * read (followed by up to RS_X arbitrary bytes of an incomplete next line), the rest in a second read.  The
+ * first call must consume exactly the start line and ask for more; the second call, given the blank line that
+ * ends the head, must complete -- i.e. the consumed start line is remembered, not parsed again.  Real
+ * nni_http_res_parse / nni_http_req_parse, http_scan_line, http_*_parse_line; stores replaced by their assumed
+ * contracts.  Bounded: one fixed well-formed start line, RS_X <= 4 trailing bytes (every value but LF). */
+#ifndef RS_X
+#define RS_X 4
+#endif
+static void
+vp_parse_split(bool is_req)
+{
+	nng_http     *conn = malloc(sizeof(*conn));
+	const char   *sl   = is_req ? "GET / HTTP/1.1\r\n" : "HTTP/1.1 200 OK\r\n";
+	size_t        sll  = is_req ? 16 : 17;
+	uint8_t       buf[17 + RS_X + 1];
+	uint8_t       rest[2] = { '\r', '\n' };
+	size_t        x = nondet_size_t(), len = nondet_size_t(), len2 = nondet_size_t();
+	int           rv;
+	__CPROVER_assume(conn != NULL);
+	__CPROVER_assume(x <= RS_X);
+	for (size_t i = 0; i < sizeof(buf); i++) {
+		buf[i] = (i < sll) ? (uint8_t) sl[i] : nondet_u8();
+		__CPROVER_assume(i < sll || buf[i] != '\n');
+	}
+	VP_HAVOC_GHOSTS();
+	g_hdr_err             = 0;
+	conn->code            = 0;
+	conn->req.data.parsed = false;
+	conn->res.data.parsed = false;
+	rv = is_req ? nni_http_req_parse(conn, buf, sll + x, &len) : nni_http_res_parse(conn, buf, sll + x, &len);
+	if (rv != NNG_ENOMEM && g_hdr_err == 0) { /* a refused store is C20's business (lemma units) */
+		__CPROVER_assert(rv == NNG_EAGAIN || rv == NNG_EPROTO, "split: first read asks for more (or refuses the trailing bytes)");
+		if (rv == NNG_EAGAIN) {
+			__CPROVER_assert(len == sll, "split: exactly the start line is consumed");
+			__CPROVER_assert(is_req ? conn->req.data.parsed : conn->res.data.parsed, "split: the consumed start line is remembered across reads");
+			if (x == 0) {
+				rv = is_req ? nni_http_req_parse(conn, rest, 2, &len2) : nni_http_res_parse(conn, rest, 2, &len2);
+				__CPROVER_assert(rv == 0 && len2 == 2, "split: the blank line in the next read completes the head (start line not parsed again)");
+			}
+		}
+	}
+}
+void h_req_parse_split(void) { vp_parse_split(true); VP_CANARY(); }
+void h_res_parse_split(void) { vp_parse_split(false); VP_CANARY(); }
+
 /* the ASSUMED result clause of nni_http_set_version (contracts.h SETVER_RV) checked
  * on the real function; run WITHOUT DFCC because DFCC havocs the function's
  * static table http_versions[] */
